@@ -9,7 +9,8 @@ CLAIMED = {
   "Lean 4 theorems over Go->Lean regenerated arith/comparison functions + lattice correspondence with Spec.Num",
   "Theorems in lean/GoluaVerif/Props/C02.lean are re-checked on every run against definitions regenerated from "
   "runtime/arith.go, comp.go, numconv.go by extract/golean; the full pipeline (Lua source -> VM) is then compared with "
-  "the executable spec the theorems are about on an exhaustive boundary lattice x 24 operators plus random operands.",
+  "the executable spec the theorems are about on an exhaustive boundary lattice x 24 operators plus random operands. "
+  "Props/C02_Order.lean: lt_irrefl, lt_trans, le_trans, le_antisymm, lt_of_lt_of_le (the exact comparison is a strict total order on non-NaN numbers of any mix) and, over the regenerated comp.go functions, lt_trans_int_float_int, le_antisymm_int_float.",
   "Trusted: Lean kernel; the translator; hardware float + - * / (taken from Lean Float in the oracle); pow/libm unchecked. "
   "See DESIGN.md section 5 and 6 (C02).", "6/C02"),
  "C14": ("proof",
